@@ -16,7 +16,11 @@
 import collections
 import datetime as dt
 
-from uberjob._errors import NodeError, create_chained_call_error
+from uberjob._errors import (
+    NodeError,
+    create_chained_call_error,
+    drop_internal_frames,
+)
 from uberjob._execution.run_function_on_graph import run_function_on_graph
 from uberjob._graph import get_full_call_scope
 from uberjob._plan import Plan
@@ -111,10 +115,7 @@ def _get_stale_nodes(
             try:
                 process(node)
             except Exception as exception:
-                # Drop internal frames
-                exception.__traceback__ = (
-                    exception.__traceback__.tb_next.tb_next.tb_next
-                )
+                drop_internal_frames(exception, 3)
                 progress_observer.increment_failed(
                     section="stale",
                     scope=scope,
